@@ -931,6 +931,299 @@ theorem headerValues_counterexample : ¬ headerValues_full := by
   revert this
   decide
 
+/-! ## loops that choose one entry of a map: `VirtualOS.findMount` -/
+
+/-- the keys of the mount table (a Go map) are pairwise distinct -/
+def MountKeysDistinct (vis : List MountEnt) : Prop := vis.Pairwise (fun a b => a.key ≠ b.key)
+
+/-- the mounts of a table, pairwise: compatible for the choosing loop -/
+theorem mounts_compat (path : List Nat) {vis : List MountEnt} (hd : MountKeysDistinct vis)
+    (ht : targetsAreKeys vis = true) :
+    vis.Pairwise (SelCompat (fun e : MountEnt => e.key == path) (fun e => mountMatches path e.key)
+      (fun e => e.key.length) (fun e => e.target.length)) := by
+  have ht' : ∀ e ∈ vis, e.target = e.key := by
+    intro e he
+    have := List.all_eq_true.1 ht e he
+    simpa using this
+  refine List.Pairwise.imp_of_mem ?_ hd
+  intro a b ha hb hab
+  refine ⟨by show a.key.length = a.target.length; rw [ht' a ha], by show b.key.length = b.target.length; rw [ht' b hb], ?_, ?_⟩
+  · intro ⟨h1, h2⟩
+    simp only [beq_iff_eq] at h1 h2
+    exact hab (h1.trans h2.symm)
+  · intro h1 h2 hlen
+    simp only [mountMatches, Bool.and_eq_true] at h1 h2
+    exact hab (hasPrefixB_eq_of_length path a.key b.key h1.1 h2.1 hlen)
+
+/-- **`VirtualOS.findMount`** (every file operation of a script under a virtual OS:
+    `os.read_file`, `os.write_file`, `os.stat`, `os.remove`, `os.rename`, `open`, …): for EVERY path
+    string, EVERY mount table (any number of mounts, nested to any depth, keys pairwise distinct as
+    the keys of one Go map are, each mount registered under its own `Target`) and EVERY two visiting
+    orders of the `mounts` map, the same mount serves the access and is handed the same relative
+    path. -/
+theorem findMount_perm_invariant (path : List Nat) {vis₁ vis₂ : List MountEnt} (h : vis₁.Perm vis₂)
+    (hd : MountKeysDistinct vis₁) (ht : targetsAreKeys vis₁ = true) :
+    findMount path vis₁ = findMount path vis₂ := by
+  unfold findMount
+  rw [selectLoop_perm _ _ _ _ h (mounts_compat path hd ht)]
+
+/-- the general form (any choosing loop of this shape over any map): for all entries that are
+    pairwise `SelCompat` — at most one ends the loop, qualifying entries have pairwise different
+    lengths, the length compared is the length stored — every visiting order chooses the same entry -/
+theorem select_perm_invariant (exact ok : α → Bool) (lenNew lenCur : α → Nat) {vis₁ vis₂ : List α}
+    (h : vis₁.Perm vis₂) (hp : vis₁.Pairwise (SelCompat exact ok lenNew lenCur)) :
+    selectLoop exact ok lenNew lenCur vis₁ = selectLoop exact ok lenNew lenCur vis₂ :=
+  selectLoop_perm exact ok lenNew lenCur h hp
+
+/-- **what is chosen** (so the invariance is not vacuous — this is the mount the documentation
+    promises): when no mount point IS the path, the mount that serves it is one whose mount point
+    is a component-wise string prefix of the path and NO qualifying mount point of the table is
+    longer; and when no mount point qualifies nothing is found.  For every table and visiting order. -/
+theorem findMount_longest (path : List Nat) (vis : List MountEnt) (ht : targetsAreKeys vis = true)
+    (hne : ∀ e ∈ vis, e.key ≠ path) :
+    (∀ id rel, findMount path vis = some (id, rel) →
+      ∃ m ∈ vis, m.id = id ∧ rel = relOf path m.key ∧ mountMatches path m.key = true ∧
+        ∀ k ∈ vis, mountMatches path k.key = true → k.key.length ≤ m.key.length) ∧
+    (findMount path vis = none ↔ ∀ k ∈ vis, mountMatches path k.key = false) := by
+  have ht' : ∀ e ∈ vis, e.target = e.key := by
+    intro e he
+    have := List.all_eq_true.1 ht e he
+    simpa using this
+  obtain ⟨b', h1, h2, _, h4⟩ := selectLoop_cand (fun e : MountEnt => e.key == path)
+    (fun e => mountMatches path e.key) (fun e => e.key.length) (fun e => e.target.length) vis none
+    (by intro x hx; simpa using hne x hx) (by intro x hx; show x.key.length = x.target.length; rw [ht' x hx])
+  unfold findMount selectLoop
+  rw [h1]
+  cases b' with
+  | none =>
+    refine ⟨by simp, ?_⟩
+    simp only [true_iff]
+    intro k hk
+    cases hm : mountMatches path k.key with
+    | false => rfl
+    | true => obtain ⟨m, hm', _⟩ := h4 k hk hm; cases hm'
+  | some m =>
+    have hm := h2 m rfl
+    simp only [reduceCtorEq, false_or] at hm
+    refine ⟨?_, ?_⟩
+    · intro id rel hres
+      simp only [Option.some.injEq, Prod.mk.injEq] at hres
+      refine ⟨m, hm.1, hres.1, by rw [← hres.2, ht' m hm.1], hm.2, ?_⟩
+      intro k hk hkm
+      obtain ⟨m', hm', hle⟩ := h4 k hk hkm
+      cases hm'
+      rw [ht' m hm.1] at hle
+      exact hle
+    · simp only [reduceCtorEq, false_iff]
+      intro hall
+      have := hall m hm.1
+      rw [hm.2] at this
+      cases this
+
+/-- a mount point that IS the path serves it, whatever else is mounted and in whatever order the
+    table is visited -/
+theorem findMount_exact (path : List Nat) (vis : List MountEnt) (hd : MountKeysDistinct vis)
+    (ht : targetsAreKeys vis = true) (e : MountEnt) (he : e ∈ vis) (hk : e.key = path) :
+    findMount path vis = some (e.id, [47]) := by
+  obtain ⟨l₁, l₂, rfl⟩ := List.append_of_mem he
+  have hperm : (l₁ ++ e :: l₂).Perm (e :: (l₁ ++ l₂)) := List.perm_middle
+  rw [findMount_perm_invariant path hperm hd ht]
+  unfold findMount selectLoop
+  have e1 : selStep (fun e : MountEnt => e.key == path) (fun e => mountMatches path e.key)
+      (fun e => e.key.length) (fun e => e.target.length) (.cand none) e = .done e := by
+    simp [selStep, hk]
+  rw [List.foldl_cons, e1, foldl_selStep_done]
+
+/-- the full statement for the variant in which every qualifying mount replaces the candidate … -/
+def findMountLast_full : Prop :=
+  ∀ (path : List Nat) (vis₁ vis₂ : List MountEnt), vis₁.Perm vis₂ → MountKeysDistinct vis₁ →
+    targetsAreKeys vis₁ = true → findMountLast path vis₁ = findMountLast path vis₂
+
+/-- … is false: with `/` and `/d` mounted, `/d/f` is served by whichever of the two is visited last -/
+theorem lastSelect_counterexample : ¬ findMountLast_full := by
+  intro h
+  have := h [47, 100, 47, 102] [⟨[47], [47], 0⟩, ⟨[47, 100], [47, 100], 1⟩]
+    [⟨[47, 100], [47, 100], 1⟩, ⟨[47], [47], 0⟩] (List.Perm.swap _ _ _)
+    (by simp [MountKeysDistinct]) (by decide)
+  revert this
+  decide
+
+/-- **why no existing test sees the difference**: on a table with at most ONE mount point that
+    qualifies for the path (a single mount, disjoint mounts) both variants choose alike; here
+    `/` alone, and `/d` next to `/e` -/
+example : findMountLast [47, 100, 47, 102] [⟨[47], [47], 0⟩] = findMount [47, 100, 47, 102] [⟨[47], [47], 0⟩] ∧
+    findMountLast [47, 100, 47, 102] [⟨[47, 101], [47, 101], 0⟩, ⟨[47, 100], [47, 100], 1⟩] =
+      findMount [47, 100, 47, 102] [⟨[47, 101], [47, 101], 0⟩, ⟨[47, 100], [47, 100], 1⟩] := by decide
+
+/-- Impl on the counterexample's table: `/d` (id 1) with the relative path `/f`, under both orders -/
+example : findMount [47, 100, 47, 102] [⟨[47], [47], 0⟩, ⟨[47, 100], [47, 100], 1⟩] = some (1, [47, 102]) ∧
+    findMount [47, 100, 47, 102] [⟨[47, 100], [47, 100], 1⟩, ⟨[47], [47], 0⟩] = some (1, [47, 102]) := by decide
+
+/-- a mount point that is a string prefix but not a path prefix does not qualify: `/d` for `/dx/f` -/
+example : findMount [47, 100, 120, 47, 102] [⟨[47, 100], [47, 100], 1⟩] = none := by decide
+
+/-- the full statement without the hypothesis on `Target` … -/
+def findMount_full : Prop :=
+  ∀ (path : List Nat) (vis₁ vis₂ : List MountEnt), vis₁.Perm vis₂ → MountKeysDistinct vis₁ →
+    findMount path vis₁ = findMount path vis₂
+
+/-- … is false on the code as it is (finding C05-findmount-target-length): the loop compares the
+    length of the visited KEY with the length of the candidate's `Target`; with mounts whose
+    `Target` was left empty every qualifying mount looks longer than the candidate, and the last
+    one visited wins -/
+theorem findMount_counterexample_target : ¬ findMount_full := by
+  intro h
+  have := h [47, 100, 47, 102] [⟨[47], [], 0⟩, ⟨[47, 100], [], 1⟩]
+    [⟨[47, 100], [], 1⟩, ⟨[47], [], 0⟩] (List.Perm.swap _ _ _) (by simp [MountKeysDistinct])
+  revert this
+  decide
+
+/-- non-vacuity: a nested table (`/`, `/d`, `/d/s`) satisfies the hypotheses -/
+example : MountKeysDistinct [⟨[47], [47], 0⟩, ⟨[47, 100], [47, 100], 1⟩, ⟨[47, 100, 47, 115], [47, 100, 47, 115], 2⟩] ∧
+    targetsAreKeys [⟨[47], [47], 0⟩, ⟨[47, 100], [47, 100], 1⟩, ⟨[47, 100, 47, 115], [47, 100, 47, 115], 2⟩] = true ∧
+    findMount [47, 100, 47, 115, 47, 102] [⟨[47, 100], [47, 100], 1⟩, ⟨[47, 100, 47, 115], [47, 100, 47, 115], 2⟩, ⟨[47], [47], 0⟩]
+      = some (2, [47, 102]) := by
+  refine ⟨by simp [MountKeysDistinct], by decide, by decide⟩
+
+/-! ## the hash key of a value is a function of the value alone
+
+`Set.SortedItems` orders the members of a set by `HashKey()`.  "Sets iterate and print in sorted
+order", the same in every evaluation and every fresh process, is therefore a statement about the
+seven `HashKey()` methods: each must be a function of the value (no seed drawn per process, no
+address), injective, and monotone within its type. -/
+
+/-- **`HashKey()` is injective**: two hashable values (of any of the seven types, a NaN included)
+    with the same hash key are the same value — so membership in a set (a Go map keyed by
+    `HashKey()`) is membership by value and distinct members have distinct keys -/
+theorem hvKey_injective (a b : HV) (h : a.key = b.key) : a = b := by
+  cases a <;> cases b <;> simp [HV.key] at h <;> grind
+
+/-- **`HashKey()` is monotone**: the comparator of `SortedItems` applied to the keys of two values
+    IS the order of the VALUES the property promises (`HV.less`: by type name; ints and bytes
+    numerically, strings and byte slices bytewise, false before true, floats numerically), for
+    all values of all types -/
+theorem hkLess_key_eq_less (a b : HV) : hkLess a.key b.key = a.less b := by
+  have ir := String.lt_irrefl
+  cases a <;> cases b <;> simp [HV.key, HV.less, HV.ty, hkLess] <;> grind
+
+/-- the listing of the VALUES is the listing of their hash keys (`sortedItems`, the model the
+    set-order stream compares `Set.SortedItems` with), however members are keyed -/
+theorem listingBy_keys (key : HV → HKey) (vis : List HV) :
+    (listingBy key vis).map key = sortedItems (vis.map key) := by
+  unfold listingBy sortedItems
+  rw [List.map_reverse, isort_map key hkGe, List.map_reverse]
+
+/-- **the listing of a set is a function of its members**: for ALL NaN-free sets of values of any
+    types and sizes (byte slices and strings of any length) and every two visiting orders of the
+    underlying Go map the listing — the VALUES in the order they print, iterate, convert to a list
+    and marshal — is the same.  Nothing else enters: `HV.key` has no other argument (no process,
+    no seed, no address). -/
+theorem setListing_perm_invariant {vis₁ vis₂ : List HV} (h : vis₁.Perm vis₂)
+    (hn : ∀ v ∈ vis₁, v.isNaN = false) : setListing vis₁ = setListing vis₂ := by
+  unfold setListing listingBy
+  congr 1
+  refine isort_unique_pred _ (fun v : HV => v.isNaN = false) ?_ ?_ ?_
+    (((List.reverse_perm vis₁).trans h).trans (List.reverse_perm vis₂).symm) ?_
+  · intro a b c ha hb hc
+    exact hkGe_trans a.key b.key c.key (by rw [hvKey_nan, ha]) (by rw [hvKey_nan, hb]) (by rw [hvKey_nan, hc])
+  · intro a b; exact hkGe_total a.key b.key
+  · intro a b ha hb h1 h2
+    exact hvKey_injective a b (hkGe_antisymm a.key b.key (by rw [hvKey_nan, ha]) (by rw [hvKey_nan, hb]) h1 h2)
+  · intro x hx; exact hn x (List.mem_reverse.1 hx)
+
+/-- the listing consists of exactly the members -/
+theorem setListing_perm (vis : List HV) : (setListing vis).Perm vis := by
+  unfold setListing listingBy
+  exact (List.reverse_perm _).trans ((isort_perm _ _).trans (List.reverse_perm _))
+
+/-- **sets print in sorted order**: for every NaN-free set (members pairwise distinct) the listing
+    is strictly ascending in the promised order of the VALUES (`HV.less`) — in particular long
+    byte slices and strings come out in bytewise order of their contents -/
+theorem setListing_ascending (vis : List HV) (hn : ∀ v ∈ vis, v.isNaN = false) (hd : vis.Nodup) :
+    (setListing vis).Pairwise (fun a b => a.less b = true) := by
+  have hs : (setListing vis).Pairwise (fun a b => hkLess b.key a.key = false) := by
+    unfold setListing listingBy
+    have := isort_sorted_on (fun a b : HV => hkGe a.key b.key) (fun v : HV => v.isNaN = false)
+      (fun a b c ha hb hc => hkGe_trans a.key b.key c.key (by rw [hvKey_nan, ha]) (by rw [hvKey_nan, hb]) (by rw [hvKey_nan, hc]))
+      (fun a b => hkGe_total a.key b.key) vis.reverse (fun x hx => hn x (List.mem_reverse.1 hx))
+    rw [List.pairwise_reverse]
+    refine this.imp ?_
+    intro a b hab
+    simpa [hkGe] using hab
+  have hnd : (setListing vis).Nodup := (setListing_perm vis).nodup_iff.2 hd
+  have hmem : ∀ v ∈ setListing vis, v.isNaN = false := fun v hv => hn v ((setListing_perm vis).mem_iff.1 hv)
+  have := (hs.and hnd).imp_of_mem (S := fun a b => a.less b = true) ?_
+  · exact this
+  · intro a b ha hb ⟨h1, h2⟩
+    rw [← hkLess_key_eq_less]
+    cases h : hkLess a.key b.key with
+    | true => rfl
+    | false =>
+      exact absurd (hvKey_injective a b (hkLess_incomp a.key b.key (by rw [hvKey_nan, hmem a ha])
+        (by rw [hvKey_nan, hmem b hb]) h h1)) h2
+
+/-- the full statement for the variant that keys a byte slice longer than `limit` by a hash of its
+    contents (the hash standing for one seeded per process): the listing does not depend on the
+    hash function … -/
+def hashedListing_full : Prop :=
+  ∀ (limit : Nat) (h₁ h₂ : String → Int) (vis : List HV),
+    listingBy (HV.keyHashed limit h₁) vis = listingBy (HV.keyHashed limit h₂) vis
+
+/-- … is false: two processes whose hash functions order `aaa` and `aab` differently list the
+    same set in two different orders -/
+theorem hashedKey_counterexample : ¬ hashedListing_full := by
+  intro h
+  have := h 2 (fun s => if s = "aaa" then 0 else 1) (fun s => if s = "aaa" then 1 else 0)
+    [.bytes "aaa", .bytes "aab"]
+  revert this
+  decide
+
+/-- … and under such a key the listing is not even sorted, whereas the code lists `aaa` before
+    `aab` whatever the visiting order -/
+theorem hashedKey_not_sorted :
+    listingBy (HV.keyHashed 2 (fun s => if s = "aaa" then 1 else 0)) [.bytes "aaa", .bytes "aab"]
+      = [.bytes "aab", .bytes "aaa"] ∧
+    setListing [.bytes "aaa", .bytes "aab"] = [.bytes "aaa", .bytes "aab"] ∧
+    setListing [.bytes "aab", .bytes "aaa"] = [.bytes "aaa", .bytes "aab"] := by decide
+
+/-- **why no existing test sees the difference**: on every set none of whose byte slices is longer
+    than the limit, the hashed key and the code give the same listing (any hash function, any set) -/
+theorem hashedKey_agrees_below_limit (limit : Nat) (h : String → Int) (vis : List HV)
+    (hs : ∀ s, HV.bytes s ∈ vis → s.length ≤ limit) :
+    listingBy (HV.keyHashed limit h) vis = setListing vis := by
+  unfold setListing listingBy
+  congr 1
+  have key : ∀ v ∈ vis.reverse, HV.keyHashed limit h v = v.key := by
+    intro v hv
+    cases v with
+    | bytes s => simp [HV.keyHashed, HV.key, hs s (List.mem_reverse.1 hv)]
+    | _ => rfl
+  generalize vis.reverse = l at key
+  induction l with
+  | nil => rfl
+  | cons a l ih =>
+    have ih' := ih (fun v hv => key v (List.mem_cons_of_mem _ hv))
+    simp only [isort, ih']
+    have hmem : ∀ x ∈ isort (fun a b => hkGe a.key b.key) l, HV.keyHashed limit h x = x.key :=
+      fun x hx => key x (List.mem_cons_of_mem _ ((isort_perm _ l).mem_iff.1 hx))
+    have ha := key a (List.mem_cons_self ..)
+    generalize isort (fun a b => hkGe a.key b.key) l = m at hmem
+    induction m with
+    | nil => rfl
+    | cons b m ihm =>
+      simp only [insertBy, ha, hmem b (List.mem_cons_self ..)]
+      split
+      · rfl
+      · rw [ihm (fun x hx => hmem x (List.mem_cons_of_mem _ hx))]
+
+/-- non-vacuity: a set with a member of every hashable type, two long byte slices that share
+    their first bytes, under two visiting orders -/
+example : setListing [.bytes "prefix-prefix-B", .int 3, .str "a", .bytes "prefix-prefix-A", .byte 7, .bool true, .nil, .flt (-1)] =
+      [.bool true, .byte 7, .bytes "prefix-prefix-A", .bytes "prefix-prefix-B", .flt (-1), .int 3, .nil, .str "a"] ∧
+    setListing [.nil, .bytes "prefix-prefix-A", .flt (-1), .bool true, .byte 7, .str "a", .int 3, .bytes "prefix-prefix-B"] =
+      [.bool true, .byte 7, .bytes "prefix-prefix-A", .bytes "prefix-prefix-B", .flt (-1), .int 3, .nil, .str "a"] := by
+  decide
+
 /-! ## non-vacuity -/
 
 /-- a program inside the guard that uses every construct, under two different annotations -/
